@@ -66,6 +66,7 @@ fn main() {
         "e2-verify" => std::process::exit(e2::verify_main(&argv[2..])),
         "e3-shard" => std::process::exit(props::conc::shard_main(&argv[2..])),
         "e3-debug" => std::process::exit(props::conc::debug_main(&argv[2..])),
+        "c16-shard" => std::process::exit(props::c16::shard_main(&argv[2..])),
         "c19-child" => std::process::exit(props::c19::child_main(&argv[2..])),
         "scenarios" => {
             // debug: run the directed scenarios of one property and print their verdicts
